@@ -5,6 +5,7 @@ import (
 	"encoding/json"
 	"fmt"
 	"os"
+	"strings"
 	"time"
 
 	disputetypes "github.com/tellor-io/layer/x/dispute/types"
@@ -28,7 +29,7 @@ type DScenario struct {
 // reports; one backer moves its stake as the scenario says; the report is disputed with the scenario's category, funding
 // pattern and fee source; votes produce the scenario's result; after execution everybody claims (twice).  All messages are
 // the real ones; the recorded trace is validated by the dispute trace specs (funding, stake, settlement).
-func RunDScen(casesPath, tracePath, statsPath string, seed int64, proj string) error {
+func RunDScen(casesPath, tracePath, statsPath string, seed int64, proj string, valSlash bool) error {
 	f, err := os.Open(casesPath)
 	if err != nil {
 		return err
@@ -87,12 +88,16 @@ func RunDScen(casesPath, tracePath, statsPath string, seed int64, proj string) e
 			w.block(o, 2*sec, func() { w.Undelegate(b, bv, part) })
 		case "undel_all":
 			w.block(o, 2*sec, func() { w.Undelegate(b, bv, tok) })
+		// (two unbonding entries, almost nothing stays delegated: a slash of a few percent goes through the rest of the
+		// delegation, all of a small first entry and into the second - or stops inside a large first entry)
 		case "undel_two_small_first":
-			w.block(o, 2*sec, func() { w.Undelegate(b, bv, part/int64(4+w.pick(12))) })
-			w.block(o, 2*sec, func() { w.Undelegate(b, bv, part-part/int64(4+w.pick(3))) })
+			a := tok / int64(50+w.pick(100))
+			w.block(o, 2*sec, func() { w.Undelegate(b, bv, a) })
+			w.block(o, 2*sec, func() { w.Undelegate(b, bv, part-a) })
 		case "undel_two_big_first":
-			w.block(o, 2*sec, func() { w.Undelegate(b, bv, part-part/int64(4+w.pick(3))) })
-			w.block(o, 2*sec, func() { w.Undelegate(b, bv, part/int64(8+w.pick(12))) })
+			a := tok / int64(50+w.pick(100))
+			w.block(o, 2*sec, func() { w.Undelegate(b, bv, part-a) })
+			w.block(o, 2*sec, func() { w.Undelegate(b, bv, a) })
 		case "redel_part":
 			w.block(o, 2*sec, func() { w.Redelegate(b, bv, bto, part) })
 		case "redel_all":
@@ -106,6 +111,11 @@ func RunDScen(casesPath, tracePath, statsPath string, seed int64, proj string) e
 			} else {
 				w.block(o, 2*sec, func() { w.ValJail(v1) })
 			}
+		}
+		// (C05 only) the validators are punished for an infraction committed before the stake moved: delegations are worth
+		// less than their shares, unbonding entries and redelegations begun since hold less than their initial balance
+		if valSlash && c.Move != "none" && c.Move != "valjail" && (strings.HasPrefix(c.Move, "undel_two") || (c.Cat+len(c.Fund))%2 == 0) {
+			w.block(o, 2*sec, func() { w.ValSlash(v0, int64([]int{5, 50}[c.Cat%2]), 12) }, func() { w.ValSlash(v1, 5, 12) }, func() { w.ValSlash(v2, 50, 12) })
 		}
 		w.block(o, 2*sec)
 		// ---- funding ----
